@@ -131,6 +131,7 @@ var settings = []setting{
 		m.DefaultConfig.ProxyMetadata["ISTIO_META_DNS_CAPTURE"] = "true"
 	}},
 	{name: "chart-sel", files: []string{"@chart-sel"}},
+	{name: "funcs", files: []string{"@funcs"}},
 	{name: "secrets", files: []string{"hello-image-secrets-in-values.iop.yaml"}},
 	{name: "values-misc", flags: []string{"values.global.logAsJson=true", "values.global.proxy.tracer=zipkin", "values.global.proxy.seccompProfile.type=RuntimeDefault",
 		"values.global.proxy.lifecycle.preStop.exec.command[0]=/bin/true", "values.global.proxy.privileged=true",
@@ -168,6 +169,27 @@ func chartSelectors() (never, always []metav1.LabelSelector) {
 	always = []metav1.LabelSelector{{MatchLabels: map[string]string{"version": "v1"}}}
 	return
 }
+
+// funcs: a template `verif` (added through the chart values, as a user would) that calls env / applicationPorts /
+// includeInboundPorts / ProxyUID-GID, which no shipped template calls any more; pods name `sidecar,verif`.
+const funcsIOP = `apiVersion: install.istio.io/v1alpha1
+kind: IstioOperator
+spec:
+  values:
+    sidecarInjectorWebhook:
+      templates:
+        verif: |
+          spec:
+            containers:
+            - name: istio-proxy
+              env:
+              - name: VERIF_APPLICATION_PORTS
+                value: "{{ applicationPorts .Spec.Containers }}"
+              - name: VERIF_ENV_DEFAULT
+                value: "{{ env "VERIF_NO_SUCH_VARIABLE" "dflt" }}"
+              - name: VERIF_PROXY_UID
+                value: "{{ .ProxyUID | default "1337" }}:{{ .ProxyGID | default "1337" }}"
+`
 
 const chartSelIOP = `apiVersion: install.istio.io/v1alpha1
 kind: IstioOperator
@@ -279,9 +301,13 @@ func loadSetting(name string) (*loaded, error) {
 	flags := append(append([]string{}, st.flags...), "installPackagePath="+filepath.Join(repoDir(), "manifests"), "profile=empty", "components.pilot.enabled=true")
 	var files []string
 	for _, f := range st.files {
-		if f == "@chart-sel" {
-			tmp := filepath.Join(".", fmt.Sprintf("verif-c19-chart-sel-%d.yaml", os.Getpid()))
-			if err := os.WriteFile(tmp, []byte(chartSelIOP), 0o644); err != nil {
+		if f == "@chart-sel" || f == "@funcs" {
+			tmp := filepath.Join(".", fmt.Sprintf("verif-c19-%s-%d.yaml", f[1:], os.Getpid()))
+			body := chartSelIOP
+			if f == "@funcs" {
+				body = funcsIOP
+			}
+			if err := os.WriteFile(tmp, []byte(body), 0o644); err != nil {
 				return nil, err
 			}
 			defer os.Remove(tmp)
@@ -896,6 +922,22 @@ func runOp(toks []string) *run {
 			ns = "kube-public"
 		case "host-network":
 			changed.Spec.HostNetwork = true
+		case "probe-reset":
+			// what a later mutating webhook may do between two invocations: an application probe is set back to what the user
+			// wrote. The decision stays "inject"; re-admission dumps that probe again under the key the first injection recorded
+			// (the merge loop of mergeOrAppendProbers with a colliding key) and has to reach a fixpoint.
+			reset := false
+			for i := range changed.Spec.Containers {
+				for _, oc := range first.orig.Spec.Containers {
+					if oc.Name == changed.Spec.Containers[i].Name && oc.ReadinessProbe != nil && oc.Name != inject.ProxyContainerName {
+						changed.Spec.Containers[i].ReadinessProbe = oc.ReadinessProbe.DeepCopy()
+						reset = true
+					}
+				}
+			}
+			if !reset {
+				return &run{status: "na", detail: "no readiness probe to reset", l: first.l}
+			}
 		default:
 			return &run{status: "unloadable", detail: "unknown change"}
 		}
@@ -1385,6 +1427,9 @@ func writePod(o *wire.Out, which string, pod *corev1.Pod) {
 	}
 	for _, v := range pod.Spec.Volumes {
 		o.Line("v", wire.Enc(v.Name), digest(v))
+	}
+	for _, e := range pod.Spec.EphemeralContainers {
+		o.Line("e", wire.Enc(e.Name), digest(e))
 	}
 	rest := pod.Spec.DeepCopy()
 	rest.Containers, rest.InitContainers, rest.Volumes = nil, nil, nil
@@ -1942,6 +1987,8 @@ func verdictOf1(r *run) string {
 			}
 			seen[c.Name] = true
 		}
+	}
+	for _, p := range []*corev1.Pod{r.once, r.twice} {
 		if !reflect.DeepEqual(p.Spec.EphemeralContainers, r.orig.Spec.EphemeralContainers) {
 			return "FAIL preserve-ephemeral " + wire.Enc("ephemeral containers changed")
 		}
@@ -1958,6 +2005,9 @@ func verdictOf1(r *run) string {
 		return v
 	}
 	if v := configExpectation(r); v != "" {
+		return v
+	}
+	if v := funcsExpectation(r); v != "" {
 		return v
 	}
 	if !jsonEqual(r.onceJSON, r.twiceJSON) {
@@ -2037,6 +2087,46 @@ func statusFields(r *run) string {
 		for n := range have {
 			if !before[n] && !listed[n] {
 				return "FAIL status-fields " + wire.Enc("image pull secret "+n+" was added but is not recorded")
+			}
+		}
+	}
+	return ""
+}
+
+// funcsExpectation (oracle only): the `verif` template of rendering `funcs` - applicationPorts lists the TCP ports of the
+// containers but istio-proxy in order, env falls back to its default, ProxyUID/GID are the defaults without a namespace.
+func funcsExpectation(r *run) string {
+	if r.l == nil || !strings.Contains(strings.ReplaceAll(r.orig.Annotations["inject.istio.io/templates"], " ", ""), "verif") {
+		return ""
+	}
+	var ports []string
+	for _, c := range r.orig.Spec.Containers {
+		if c.Name == inject.ProxyContainerName {
+			continue
+		}
+		for _, p := range c.Ports {
+			if p.Protocol == corev1.ProtocolUDP || p.Protocol == corev1.ProtocolSCTP {
+				continue
+			}
+			ports = append(ports, strconv.Itoa(int(p.ContainerPort)))
+		}
+	}
+	want := map[string]string{"VERIF_APPLICATION_PORTS": strings.Join(ports, ","), "VERIF_ENV_DEFAULT": "dflt", "VERIF_PROXY_UID": "1337:1337"}
+	for _, p := range []*corev1.Pod{r.once, r.twice} {
+		sc := inject.FindSidecar(p)
+		if sc == nil {
+			return "FAIL template-funcs " + wire.Enc("no sidecar")
+		}
+		for k, w := range want {
+			got, n := "", 0
+			for _, e := range sc.Env {
+				if e.Name == k {
+					got = e.Value
+					n++
+				}
+			}
+			if n != 1 || got != w {
+				return "FAIL template-funcs " + wire.Enc(fmt.Sprintf("%s x%d = %q want %q", k, n, got, w))
 			}
 		}
 	}
